@@ -103,7 +103,7 @@ Lemma build_if cx env n u bt th el l e : build cx env n u (RIf bt th el l e) =
   | Some (le, eb) =>
       let '(ia, aa, _) := build_list cx (a :: env) (a + 1) false eb in
       (keep u (IIfElse n a) l, mkseq ty ic le :: ac ++ mkseq ty ia e :: aa, u)
-  | None => (keep u (IIfElse n a) l, mkseq ty ic e :: ac ++ [empty_seq ty], u)
+  | None => (keep u (IIfElse n a) l, mkseq ty ic default_loc :: ac ++ [mkseq ty [] e], u)
   end.
 Proof.
   rewrite <- bl_inner_eq. destruct el as [[le eb]|]; [|reflexivity].
@@ -357,6 +357,17 @@ Section ParseArena.
         unfold push_ctl. cbn [ar ctl ifs]. rewrite E2.
         cbn [rbind pop_ctl ctl ar ifs].
         fold (mk b k u ps rs). rewrite Hend2.
+        assert (Hend3 : set_end (set_end (((a ++ [mkseq ty ic e]) ++ ac) ++ [empty_seq ty]) n default_loc)
+                          (len_N ((a ++ [mkseq ty ic e]) ++ ac)) e =
+                        ((a ++ [mkseq ty ic default_loc]) ++ ac) ++ [mkseq ty [] e]).
+        { unfold set_end.
+          rewrite (upd_app_l ((a ++ [mkseq ty ic e]) ++ ac)) by (rewrite !app_length; cbn [length]; lia).
+          rewrite (upd_app_l (a ++ [mkseq ty ic e]) ac) by (rewrite app_length; cbn [length]; lia).
+          rewrite (upd_snoc a _ _ _ Hn). cbn [sq_ty sq_instrs mkseq].
+          fold (mkseq ty ic default_loc).
+          rewrite upd_snoc by (rewrite to_nat_len_N, !app_length; reflexivity).
+          reflexivity. }
+        rewrite Hend3.
         match goal with |- rbind (alloc_in ?s _ _ _) _ = _ =>
           match s with {| ar := ?x; ctl := ?y; ifs := ?z |} => change s with (mkst x y z) end end.
         rewrite alloc_top. cbn [rbind run]. unfold mkst. do 2 f_equal.
@@ -411,7 +422,7 @@ Lemma tbuild_if cx env n u bt th el l e : tbuild cx env n u (RIf bt th el l e) =
   | Some (le, eb) =>
       let '(ia, n2, _) := tbuild_list cx (a :: env) (a + 1) false eb in
       (keep u (ItI (T n ty ic le) (T a ty ia e)) l, n2, u)
-  | None => (keep u (ItI (T n ty ic e) (T a ty [] default_loc)) l, a + 1, u)
+  | None => (keep u (ItI (T n ty ic default_loc) (T a ty [] e)) l, a + 1, u)
   end.
 Proof.
   rewrite <- tbl_inner_eq. destruct el as [[le eb]|]; [|reflexivity].
@@ -560,19 +571,19 @@ Section BuildTree.
         * rewrite len_N_cons, len_N_app, len_N_cons, len_N_nil. unfold a. lia.
         * intros pre post Hp. destruct u; cbn [keep]; constructor; [|constructor].
           cbn [fst IDen].
-          assert (Hpa : length (pre ++ mkseq ty ic e :: ac) = N.to_nat a).
+          assert (Hpa : length (pre ++ mkseq ty ic default_loc :: ac) = N.to_nat a).
           { rewrite app_length. cbn [length]. unfold a. rewrite !N2Nat.inj_add, to_nat_len_N.
             change (N.to_nat 1) with 1%nat. lia. }
-          assert (Hp1 : length (pre ++ [mkseq ty ic e]) = N.to_nat (n + 1)).
+          assert (Hp1 : length (pre ++ [mkseq ty ic default_loc]) = N.to_nat (n + 1)).
           { rewrite app_length, N2Nat.inj_add. cbn. lia. }
           split; apply Den_T; split.
           -- cbn [app]. rewrite shallow_seq_T, <- Ec. apply nth_error_at, Hp.
-          -- specialize (Dc (pre ++ [mkseq ty ic e]) ([empty_seq ty] ++ post) Hp1).
+          -- specialize (Dc (pre ++ [mkseq ty ic default_loc]) ([mkseq ty [] e] ++ post) Hp1).
              repeat (rewrite <- ?app_assoc in Dc; cbn [app] in Dc).
              repeat (rewrite <- ?app_assoc; cbn [app]). exact Dc.
-          -- rewrite shallow_seq_T. cbn [map]. change (mkseq ty [] default_loc) with (empty_seq ty).
-             replace (pre ++ (mkseq ty ic e :: ac ++ [empty_seq ty]) ++ post)
-               with ((pre ++ mkseq ty ic e :: ac) ++ empty_seq ty :: post)
+          -- rewrite shallow_seq_T. cbn [map].
+             replace (pre ++ (mkseq ty ic default_loc :: ac ++ [mkseq ty [] e]) ++ post)
+               with ((pre ++ mkseq ty ic default_loc :: ac) ++ mkseq ty [] e :: post)
                by (repeat (rewrite <- ?app_assoc; cbn [app]); reflexivity).
              apply nth_error_at, Hpa.
           -- constructor.
